@@ -8,6 +8,9 @@ use ckb_types::{
     utilities::merkle_mountain_range::VerifiableHeader,
     H256, U256,
 };
+#[cfg(feature = "verif")]
+use crate::verif_hooks::DetDashMap as DashMap;
+#[cfg(not(feature = "verif"))]
 use dashmap::DashMap;
 use std::{
     collections::{HashMap, HashSet},
@@ -1245,6 +1248,10 @@ impl Peers {
     }
 
     pub(crate) fn matched_blocks(&self) -> &RwLock<HashMap<H256, (bool, Option<packed::Block>)>> {
+        #[cfg(feature = "verif")]
+        crate::verif_hooks::lock_point("matched_blocks", &|| {
+            self.matched_blocks.try_write().is_ok()
+        });
         &self.matched_blocks
     }
 
@@ -1983,4 +1990,238 @@ fn if_verifiable_headers_are_same(lhs: &VerifiableHeader, rhs: &VerifiableHeader
                     .expect("checked: is not none")
                     .as_slice()))
         && lhs.total_difficulty() == rhs.total_difficulty()
+}
+
+// Canonical dump of the complete in-memory peer state for the verification harness:
+// peers sorted by index, every timestamp printed as its age relative to `now`.
+#[cfg(feature = "verif")]
+#[allow(dead_code)]
+impl Peers {
+    pub(crate) fn verif_dump(&self, now: u64) -> String {
+        use std::fmt::Write as _;
+        fn age(now: u64, ts: u64) -> String {
+            if ts == 0 {
+                "never".to_owned()
+            } else {
+                format!("{}", now as i128 - ts as i128)
+            }
+        }
+        fn vh(h: &VerifiableHeader) -> String {
+            format!(
+                "{}:{:#x}:td={:#x}",
+                h.header().number(),
+                h.header().hash(),
+                h.total_difficulty()
+            )
+        }
+        fn hs(headers: &[HeaderView]) -> String {
+            headers
+                .iter()
+                .map(|h| format!("{}:{:#x}", h.number(), h.hash()))
+                .collect::<Vec<_>>()
+                .join(",")
+        }
+        fn ls(now: u64, s: &LastState) -> String {
+            format!("last({} age={})", vh(&s.header), age(now, s.update_ts))
+        }
+        fn ps(s: &ProveState) -> String {
+            format!(
+                "proved({} reorg=[{}] lastn=[{}])",
+                vh(s.last_state.as_ref()),
+                hs(&s.reorg_last_headers),
+                hs(&s.last_headers)
+            )
+        }
+        fn rq(r: &ProveRequest) -> String {
+            format!(
+                "req({} content={:#x} skip_tau={} long_fork={})",
+                vh(r.last_state.as_ref()),
+                packed::CellOutput::calc_data_hash(r.content.as_slice()),
+                r.skip_check_tau,
+                r.long_fork_detected
+            )
+        }
+        let mut out = String::new();
+        let mut indexes = self.get_peers_index();
+        indexes.sort();
+        for index in indexes {
+            let peer = match self.get_peer(&index) {
+                Some(peer) => peer,
+                None => continue,
+            };
+            let state = match &peer.state {
+                PeerState::Initialized => "Initialized".to_owned(),
+                PeerState::RequestFirstLastState { when_sent } => {
+                    format!("RequestFirstLastState sent={}", age(now, *when_sent))
+                }
+                PeerState::OnlyHasLastState { last_state } => {
+                    format!("OnlyHasLastState {}", ls(now, last_state))
+                }
+                PeerState::RequestFirstLastStateProof {
+                    last_state,
+                    request,
+                    when_sent,
+                } => format!(
+                    "RequestFirstLastStateProof {} {} sent={}",
+                    ls(now, last_state),
+                    rq(request),
+                    age(now, *when_sent)
+                ),
+                PeerState::Ready {
+                    last_state,
+                    prove_state,
+                } => format!("Ready {} {}", ls(now, last_state), ps(prove_state)),
+                PeerState::RequestNewLastState {
+                    last_state,
+                    prove_state,
+                    when_sent,
+                } => format!(
+                    "RequestNewLastState {} {} sent={}",
+                    ls(now, last_state),
+                    ps(prove_state),
+                    age(now, *when_sent)
+                ),
+                PeerState::RequestNewLastStateProof {
+                    last_state,
+                    prove_state,
+                    request,
+                    when_sent,
+                } => format!(
+                    "RequestNewLastStateProof {} {} {} sent={}",
+                    ls(now, last_state),
+                    ps(prove_state),
+                    rq(request),
+                    age(now, *when_sent)
+                ),
+            };
+            let _ = writeln!(out, "peer {} {}", index, state);
+            if let Some(req) = peer.blocks_proof_request.as_ref() {
+                let mut hashes: Vec<String> = req
+                    .block_hashes()
+                    .iter()
+                    .map(|h| format!("{:#x}", h))
+                    .collect();
+                hashes.sort();
+                let _ = writeln!(
+                    out,
+                    "  blocks_proof_request last={:#x} [{}] get_blocks={} sent={}",
+                    req.last_hash(),
+                    hashes.join(","),
+                    req.should_get_blocks,
+                    age(now, req.when_sent)
+                );
+            }
+            if let Some(req) = peer.blocks_request.as_ref() {
+                let mut hashes: Vec<String> = req
+                    .hashes
+                    .iter()
+                    .map(|(h, r)| format!("{:#x}={}", h, r))
+                    .collect();
+                hashes.sort();
+                let _ = writeln!(
+                    out,
+                    "  blocks_request [{}] sent={}",
+                    hashes.join(","),
+                    age(now, req.when_sent)
+                );
+            }
+            if let Some(req) = peer.txs_proof_request.as_ref() {
+                let mut hashes: Vec<String> =
+                    req.tx_hashes().iter().map(|h| format!("{:#x}", h)).collect();
+                hashes.sort();
+                let _ = writeln!(
+                    out,
+                    "  txs_proof_request last={:#x} [{}] sent={}",
+                    req.last_hash(),
+                    hashes.join(","),
+                    age(now, req.when_sent)
+                );
+            }
+            let _ = writeln!(
+                out,
+                "  check_points first={} [{}]",
+                peer.check_points.index_of_first_check_point,
+                peer.check_points
+                    .inner
+                    .iter()
+                    .map(|h| format!("{:#x}", h))
+                    .collect::<Vec<_>>()
+                    .join(",")
+            );
+            let _ = writeln!(
+                out,
+                "  latest_filter_hashes cp={} [{}]",
+                peer.latest_block_filter_hashes.check_point_number,
+                peer.latest_block_filter_hashes
+                    .inner
+                    .iter()
+                    .map(|h| format!("{:#x}", h))
+                    .collect::<Vec<_>>()
+                    .join(",")
+            );
+        }
+        for (name, map) in [
+            ("fetching_header", &self.fetching_headers),
+            ("fetching_tx", &self.fetching_txs),
+        ] {
+            let mut items: Vec<String> = map
+                .iter()
+                .map(|pair| {
+                    let info = pair.value();
+                    format!(
+                        "{} {:#x} added={} first_sent={} timeout={} missing={}",
+                        name,
+                        pair.key(),
+                        age(now, info.added_ts),
+                        age(now, info.first_sent),
+                        info.timeout,
+                        info.missing
+                    )
+                })
+                .collect();
+            items.sort();
+            for item in items {
+                let _ = writeln!(out, "{}", item);
+            }
+        }
+        {
+            let matched = self.matched_blocks.read().unwrap_or_else(|e| e.into_inner());
+            let mut items: Vec<String> = matched
+                .iter()
+                .map(|(hash, (proved, block))| {
+                    format!(
+                        "matched {:#x} proved={} downloaded={}",
+                        hash,
+                        proved,
+                        block
+                            .as_ref()
+                            .map(|b| format!("{:#x}", b.calc_header_hash()))
+                            .unwrap_or_else(|| "-".to_owned())
+                    )
+                })
+                .collect();
+            items.sort();
+            for item in items {
+                let _ = writeln!(out, "{}", item);
+            }
+        }
+        {
+            let cached = self
+                .cached_block_filter_hashes
+                .read()
+                .unwrap_or_else(|e| e.into_inner());
+            let _ = writeln!(
+                out,
+                "cached_filter_hashes cp_index={} [{}]",
+                cached.0,
+                cached
+                    .1
+                    .iter()
+                    .map(|h| format!("{:#x}", h))
+                    .collect::<Vec<_>>()
+                    .join(",")
+            );
+        }
+        out
+    }
 }
